@@ -26,7 +26,9 @@ RULE = ('Hypothesis settings files as in C13 plus a fault mix (one input whose d
         'printed 2 decimals and the .json equals the text block. Non-trivial = >= 10 rows and >= 2 outputs, or a fault-mix run '
         'with >= 1 failed and >= 1 successful iteration. One case in three with >= 2 workers runs under an injected schedule fault: '
         'the row append is made non-atomic (2-5 pieces, flushed, 1-5 ms pauses) so concurrent appends overlap in time unless the '
-        'writer excludes them; the same grammar / row-count / replay clauses then decide "never torn or interleaved".')
+        'writer excludes them; the same grammar / row-count / replay clauses then decide "never torn or interleaved". One case in '
+        'four is preceded, in the same process, by another Monte Carlo request on the same base-input path whose base differs in one '
+        'non-sampled input (with a "#" mean); the rows of the run under test must replay against its own base.')
 ASSUMPTIONS = ['outputs are labels occurring exactly once in the base report (a label matching twice is skipped by the driver: domain restriction)',
                'survivor-count bound under the fault mix: exact binomial 1e-9 lower quantile (a failing iteration must not take other iterations down)']
 
@@ -54,6 +56,14 @@ def cases(draw, tier):
         s['extra_base'] = extra
         if out not in s['outputs']:
             s['outputs'] = [out] + s['outputs'][:2]
+    s['prelude'] = None
+    if draw(st.integers(0, 3)) == 0:
+        # an earlier request in the same process on the same base path, whose base differs in one input that is not sampled
+        sampled = {i[0] for i in s['inputs']}
+        cands = [(n, v) for n, v in ([('Reservoir Area', '82.5'), ('Reservoir Thickness', '0.375'), ('Reservoir Porosity', '15.0')] if s['program'] == 'HIP'
+                                      else [('Reservoir Depth', '3.6'), ('Number of Production Wells', '3')]) if n not in sampled]
+        if cands:
+            s['prelude'] = list(draw(st.sampled_from(cands)))
     s['slow_writes'] = None
     if s['workers'] > 1 and draw(st.integers(0, 2)) == 0:
         # schedule fault: non-atomic row appends (pieces, pause in ms) - concurrent appends now overlap in time unless excluded
@@ -111,7 +121,7 @@ def extract(report, label):
 def evaluate(s, rec):
     worker.init_worker()
     d = tempfile.mkdtemp(prefix='c14-', dir=worker.scratch_dir())
-    case = {k: s.get(k) for k in ('program', 'inputs', 'outputs', 'iterations', 'workers', 'fault', 'final_newline', 'extra_base', 'slow_writes')}
+    case = {k: s.get(k) for k in ('program', 'inputs', 'outputs', 'iterations', 'workers', 'fault', 'final_newline', 'extra_base', 'slow_writes', 'prelude')}
     sig = dict(program=s['program'], slow_writes=bool(s.get('slow_writes')))
 
     def bad(clause, detail, **extra):
@@ -139,6 +149,8 @@ def evaluate(s, rec):
             labels.append('sampled_name_is_prefix_of_another_parameter')
         if s.get('slow_writes'):
             labels.append('non_atomic_row_appends_injected')
+        if s.get('prelude'):
+            labels.append('earlier_request_in_same_process_on_same_base_path')
         nt = (len(rows) >= 10 and len(s['outputs']) >= 2) or bool(fault and 0 < len(rows) < s['iterations'])
         rec.case(case, nontrivial=nt, labels=labels, key=case,
                  sample={'settings': mc.settings_text(s).splitlines(), 'workers': s['workers'], 'rows': len(rows), 'fault': fault})
